@@ -241,8 +241,10 @@ type req struct {
 	// pass-through / ignorable content that makes the document long (not part of the Coq term: the
 	// handler must answer as for the short request): ReceiverToken hex text, VSExtension.Object,
 	// unknown members, insignificant whitespace
-	// rawMember: name -> raw JSON value of a member of the TYPED payload that encoding/json itself refuses
-	// (wrong JSON kind, number out of range).  The base payload still decodes: class BadMember of the model.
+	// rawMember: name -> raw JSON value of a member of the base or typed payload that encoding/json (or the
+	// UnmarshalText of a member the model does not carry: ReceiverToken, VSExtension.VendorID) refuses.
+	// Decoding goes on after a member error: class BadMember of the model, the request carries the zero
+	// value for the refused member.
 	rawMember         map[string]string
 	receiverOverride  string
 	recvToken         *string
@@ -270,7 +272,9 @@ func (r *req) body() string {
 	var fs []string
 	add := func(name, val string) { fs = append(fs, jstr(name)+":"+val) }
 	str := func(name, v string) {
-		if !(r.omit[name] && v == "") {
+		if raw, ok := r.rawMember[name]; ok {
+			add(name, raw)
+		} else if !(r.omit[name] && v == "") {
 			add(name, jstr(v))
 		}
 	}
@@ -286,13 +290,17 @@ func (r *req) body() string {
 	add("ProtocolVersion", jstr("1.0"))
 	str("SenderID", r.sender)
 	str("ReceiverID", r.receiver)
-	if !(r.omit["TransactionID"] && r.txid == 0) {
+	if raw, ok := r.rawMember["TransactionID"]; ok {
+		add("TransactionID", raw)
+	} else if !(r.omit["TransactionID"] && r.txid == 0) {
 		add("TransactionID", fmt.Sprint(r.txid))
 	}
 	str("MessageType", r.mtype)
 	txt("SenderToken", r.senderToken)
 	txt("ReceiverToken", r.recvToken)
-	if r.vsObjectPad > 0 {
+	if raw, ok := r.rawMember["VSExtension"]; ok {
+		add("VSExtension", raw)
+	} else if r.vsObjectPad > 0 {
 		add("VSExtension", `{"VendorID":"0a0b0c","Object":{"pad":"`+strings.Repeat("x", r.vsObjectPad)+`","n":[1,2,{"deep":null}]}}`)
 	}
 	if r.unknownPad > 0 {
